@@ -16,8 +16,11 @@ class Family:
             if b is None:
                 continue
             single = (b.get("type") == "BlockStatement" and len(b["stmts"]) == 1 and b["stmts"][0]["type"] == "ReturnStatement") or b.get("type") != "BlockStatement"
-            rt = tsast.type_str((hf.get("returnType") or {}).get("typeAnnotation"))
-            if single and (rt in ("boolean", "") or " is " in rt):
+            rta = (hf.get("returnType") or {}).get("typeAnnotation")
+            rt = tsast.type_str(rta)
+            # a TYPE GUARD `function isObj(x: unknown): x is object { return .. }` is a boolean helper as well: swc
+            # gives its return annotation as a TsTypePredicate node, which type_str does not spell out (b102)
+            if single and (rt in ("boolean", "") or " is " in rt or ((rta or {}).get("type") == "TsTypePredicate" and not rta.get("asserts"))):
                 PREDICATE_HELPERS[hn] = hf
         self.iface = m.interfaces.get("Runtype")
         self.iface_methods = []
